@@ -68,7 +68,7 @@ def generate(seed: int, tier: str):
         else:
             ch, st = W.gen_chunks(rng, shapes[t], style=rng.choice(["single", "regular", "irregular"]))
             storage.append({"kind": k, "chunks": ch, "style": st})
-    n_steps = rng.randint(4, 10)
+    n_steps = rng.randint(4, 10) if tier == "quick" else rng.randint(6, 18)
     steps = []
     for i in range(n_steps):
         if i < 2 or rng.random() < 0.55:
